@@ -8,7 +8,7 @@ callbacks (F4), followed by probes.  Oracle: the same probe in the pristine
 state (rounding-level tolerance per class, exact equality for exact classes).
 """
 import json
-from simkit import codec, compare
+from simkit import codec, compare, isolate
 from simkit.world import World
 from simkit import minimise as _min
 from machines import common, refs
@@ -27,7 +27,7 @@ GROUPS = {
     'gamma': ['gamma', 'gamma_big', 'gamma_int', 'loggamma', 'loggamma_big', 'rgamma', 'factorial', 'factorial_int', 'factorial_big',
               'psi', 'beta', 'binomial', 'rf', 'gammaprod', 'superfac', 'fac2', 'binomial_int', 'gamma_vhi', 'gamma_vhi', 'rgamma_vhi'],
     'zeta': ['zeta', 'zeta_int', 'hurwitz', 'zeta_rs', 'altzeta', 'siegelz', 'primezeta', 'stieltjes', 'zetazero', 'grampoint',
-             'riemannr', 'polylog', 'dirichlet', 'nzeros', 'backlunds'],
+             'riemannr', 'polylog', 'dirichlet', 'nzeros', 'backlunds', 'zeta_rs_hi', 'siegelz_hi'],
     'ints': ['factorial_big', 'fac2', 'fib_int', 'eulernum', 'eulernum_exact', 'stirling1', 'stirling2', 'stirling1_exact',
              'stirling2_exact', 'bernfrac', 'binomial_int', 'list_primes', 'isprime', 'moebius', 'primepi', 'bell', 'mangoldt'],
     # primepi2 is deliberately absent: it returns an interval of the `iv` context, whose width is governed by
@@ -46,7 +46,7 @@ ELEM_PRECS = [380, 399, 400, 401, 420, 2480, 2499, 2500, 2501, 2520, 2980, 2999,
 class Machine(object):
     PROP = 'C33'
     DEFAULT_SEED = 3301
-    RUNS = {'quick': 1500, 'thorough': 25000}
+    RUNS = {'quick': 1200, 'thorough': 25000}
     WALL = {'quick': 150, 'thorough': 1500}
     MIN_WALL = 120
     BUDGET = {'quick': 300000, 'thorough': 1000000}
@@ -68,16 +68,75 @@ class Machine(object):
             ex.records = []
             ex.rare = {}
             ex.sites = set()
+            ex.sigs = set()
             ex.pre_fn = _pre
             ex.check_fn = _collect
             ex.run(prog['steps'])
-            st = {'world': w.stats, 'rare': ex.rare, 'sites': ex.sites,
+            st = {'world': w.stats, 'rare': ex.rare, 'sites': ex.sites, 'cache_signatures': ex.sigs,
                   'passes': {'fault_free' if survey_in is None else 'faulted': 1}}
             return {'violations': ex.viol, 'stats': st, 'digest': w.digest(), 'program': prog, 'survey': survey,
                     'records': ex.records}
         def judge(res):
             _judge(res, mode, seed_base)
+        if prog.get('config', {}).get('sitesweep') and common.has_unresolved_faults(prog):
+            return self._site_sweep(prog, child, judge, mode)
         return common.run_two_pass(prog, child, self.RUN_TIMEOUT, mode=mode, judge=judge)
+
+    def _site_sweep(self, prog, child, judge, mode):
+        """Crash-point enumeration for one operation: pass A (fault-free) lists the
+        state-mutating lines the faulted step executes; then the program is executed
+        once per such line (first and last occurrence), interrupted right after it.
+        A violating variant is returned with its fault address resolved, so it replays
+        as an ordinary single-pass program."""
+        from simkit.driver import merge_stats
+        pa = json.loads(json.dumps(prog))
+        st, A = isolate.call(child, (pa, {}, None), timeout=self.RUN_TIMEOUT, mode=mode)
+        if st == 'timeout':
+            return {'status': 'inconclusive'}
+        if st != 'ok':
+            raise RuntimeError('run child (sweep pass A) crashed: %s' % (A,))
+        judge(A)
+        if A.get('violations'):
+            A['program'] = common.strip_all_faults(A.get('program') or pa)
+            return A
+        total = {}
+        merge_stats(total, A.get('stats', {}))
+        digests = [str(A.get('digest'))]
+        fstep = None
+        for s in prog['steps']:
+            if s.get('fault') and not s['fault'].get('resolved'):
+                fstep = s
+                break
+        sites = ((A.get('survey') or {}).get(fstep.get('id')) or {}).get('sites') or []
+        out = None
+        n = 0
+        for f, ln, cnt, fn in sites[:self.SWEEP_SITES]:
+            for occ in sorted(set([1, cnt])):
+                pb = json.loads(json.dumps(prog))
+                for s in pb['steps']:
+                    if s.get('id') == fstep.get('id'):
+                        s['fault'] = {'kind': 'F3', 'site': [f, ln, occ], 'func': fn, 'resolved': True, 'placement': 'enumerated'}
+                st, B = isolate.call(child, (pb, None, {}), timeout=self.RUN_TIMEOUT, mode=mode)
+                if st != 'ok':
+                    continue
+                judge(B)
+                n += 1
+                merge_stats(total, B.get('stats', {}))
+                digests.append(str(B.get('digest')))
+                if B.get('violations') and out is None:
+                    out = B
+                    out['program'] = pb
+            if out is not None:
+                break
+        total.setdefault('rare', {})['crash_points_enumerated'] = n
+        import hashlib
+        res = out or {'violations': [], 'program': prog}
+        res['stats'] = total
+        res['digest'] = hashlib.sha256(''.join(digests).encode()).hexdigest()
+        res.pop('records', None)
+        return res
+
+    SWEEP_SITES = 40
 
     def simplify(self, prog):
         for cand in _min.generic_simplify(prog):
@@ -119,6 +178,7 @@ class Machine(object):
             'fault_sites_sample': sorted(agg.get('sites', set()))[:60],
             'rare_conditions': agg.get('rare', {}),
             'entry_points_probed': len(agg.get('probed', set())),
+            'distinct_cache_state_signatures_before_a_probe': len(agg.get('cache_signatures', set())),
             'real_vs_stub': {'real': ['all of mpmath from the working tree', 'CPython 3.12'],
                              'stub': ['user callbacks', 'pristine-state reference (snapshot restore, validated against fork isolation)']},
         }
@@ -179,6 +239,7 @@ def _collect(ex, step, rec, where):
     r = {'step': dict((k, v) for k, v in step.items() if k not in ('fault', '_refargs')),
          'status': rec.get('status'), 'fired': rec.get('fired'), 'after_abort': bool(getattr(ex, 'after_abort', False)),
          'prec': ex.model.get(step.get('actor', 'mp'))[0], 'starts': rec.get('starts', 0)}
+    ex.sigs.add(common.cache_signature(ex.w))
     if '_refargs' in step:
         r['step']['args'] = step.pop('_refargs')
     if rec.get('status') == 'ok':
@@ -365,8 +426,48 @@ class _Gen(object):
             self.cur[actor] = p
             steps.append(st)
 
+    def sitesweep_program(self):
+        """one operation, interrupted at every state-mutating line it executes (see Machine._site_sweep):
+        [same call fault-free]? ; the call, interrupted ; precision re-asserted ; the same call again ;
+        the same entry point on other arguments ; one or two unrelated probes"""
+        r = self.rng
+        actor = 'mp'
+        keys = []
+        for g in GROUPS:
+            keys.extend(GROUPS[g])
+        keys = sorted(set(keys))
+        ents = [catalogue.BY_KEY[k] for k in keys if k in catalogue.BY_KEY]
+        ents = [e for e in ents if 'mp' in e.ctxs and e.cost <= 2 and e.key not in EXCLUDE and not e.key.endswith('_vhi')]
+        if r.random() < 0.3:
+            ents = [e for e in catalogue.entries(ctx='mp', maxcost=2) if e.key not in EXCLUDE and not e.key.endswith('_vhi')]
+        e = r.choice(ents)
+        self.cfg['sitesweep'] = e.key
+        p = pick_prec(r, min(e.maxprec, 300))
+        steps = [self.setprec(actor, p)]
+        first = self.call(actor, e, judge=False)
+        warm = r.random() < 0.5
+        if warm:
+            steps.append(first)                       # caches filled by a complete call first
+            target = self.call(actor, e, judge=False, reuse=first)
+        else:
+            target = first                            # the interrupted call is the one that fills the caches
+        target['fault'] = {'kind': 'F3', 'u': 0.0, 'placement': 'store'}
+        steps.append(target)
+        steps.append({'kind': 'reassert', 'id': self.new_id()})
+        steps.append(self.call(actor, e, judge=True, reuse=target, rel='retry'))
+        other = self.call(actor, e, judge=True, rel='equal')
+        steps.append(other)
+        if r.random() < 0.5:
+            q = max(1, min(e.maxprec, p + r.choice([-20, 13, 64])))
+            steps.append(self.setprec(actor, q))
+            steps.append(self.call(actor, e, judge=True, reuse=target, rel='above' if q > p else 'below'))
+        self.probes(steps, r.randint(1, 2), after_abort=True)
+        return {'config': self.cfg, 'steps': steps}
+
     def program(self):
         r = self.rng
+        if r.random() < 0.2:
+            return self.sitesweep_program()
         steps = []
         if 'c1' in self.actors:
             steps.append({'kind': 'clone', 'actor': 'c1', 'parent': 'mp', 'id': self.new_id()})
@@ -399,6 +500,10 @@ class _Gen(object):
                 steps.append(st2)
             if 'fault' in st:
                 steps.append({'kind': 'reassert', 'id': self.new_id()})
+                if e.key not in EXCLUDE:
+                    # what a user does after an interrupted call: the very same call again
+                    retry = self.call(actor, e, judge=True, reuse=st, rel='retry')
+                    steps.append(retry)
                 self.probes(steps, r.randint(2, 5), after_abort=True)
         self.probes(steps, r.randint(3, 8))
         return {'config': self.cfg, 'steps': steps}
